@@ -576,7 +576,7 @@ theorem cAccumulateS_unaliased_eq {α : Type} [Add α] (g : FlowGrid) (m : Int) 
 
 /-- the last position of a value in a list -/
 theorem exists_last_index {l : List Int} {x : Int} (h : x ∈ l) :
-    ∃ k, l[k]? = some x ∧ ∀ k', k < k' → l[k']? ≠ some x := by
+    ∃ k : Nat, l[k]? = some x ∧ ∀ k' : Nat, k < k' → l[k']? ≠ some x := by
   induction l with
   | nil => simp at h
   | cons y rest ih =>
